@@ -4,6 +4,8 @@ mod c05;
 mod c06;
 mod c07;
 mod c11;
+mod c12;
+mod c12types;
 mod c13;
 mod c15;
 mod c16;
@@ -15,6 +17,65 @@ mod mutate;
 mod providers;
 mod world;
 mod util;
+
+/// Allocation meter (C12): counts live heap bytes and their peak; a single request above 1 GiB is reported with the
+/// current decode case on stderr before the process aborts (such a request can only come from an unchecked length).
+pub mod alloc_meter {
+    use std::alloc::{GlobalAlloc, Layout, System};
+    use std::sync::atomic::{AtomicUsize, Ordering::Relaxed};
+    pub struct Meter;
+    static CUR: AtomicUsize = AtomicUsize::new(0);
+    static PEAK: AtomicUsize = AtomicUsize::new(0);
+    static CASE_LEN: AtomicUsize = AtomicUsize::new(0);
+    static mut CASE: [u8; 4096] = [0; 4096];
+    unsafe impl GlobalAlloc for Meter {
+        unsafe fn alloc(&self, l: Layout) -> *mut u8 {
+            if l.size() > (1 << 30) {
+                use std::io::Write;
+                let n = CASE_LEN.load(Relaxed);
+                let _ = std::io::stderr().write_all(b"HUGE-ALLOC while decoding: ");
+                let _ = std::io::stderr().write_all(&*std::ptr::addr_of!(CASE).cast::<[u8; 4096]>().as_ref().unwrap()[..n].as_ref());
+                let _ = std::io::stderr().write_all(b"\n");
+                std::process::abort();
+            }
+            let p = System.alloc(l);
+            if !p.is_null() {
+                let c = CUR.fetch_add(l.size(), Relaxed) + l.size();
+                PEAK.fetch_max(c, Relaxed);
+            }
+            p
+        }
+        unsafe fn dealloc(&self, p: *mut u8, l: Layout) {
+            CUR.fetch_sub(l.size(), Relaxed);
+            System.dealloc(p, l)
+        }
+    }
+    pub fn set_case(name: &str, bytes: &[u8]) {
+        let mut s = String::with_capacity(4096);
+        s.push_str(name);
+        s.push(' ');
+        for b in bytes.iter().take(2000) {
+            s.push_str(&format!("{b:02x}"));
+        }
+        let n = s.len().min(4096);
+        unsafe {
+            std::ptr::addr_of_mut!(CASE).cast::<u8>().copy_from_nonoverlapping(s.as_ptr(), n);
+        }
+        CASE_LEN.store(n, Relaxed);
+    }
+    /// returns the baseline (live bytes now) and resets the peak to it
+    pub fn start() -> usize {
+        let c = CUR.load(Relaxed);
+        PEAK.store(c, Relaxed);
+        c
+    }
+    pub fn peak_since(base: usize) -> usize {
+        PEAK.load(Relaxed).saturating_sub(base)
+    }
+}
+
+#[global_allocator]
+static METER: alloc_meter::Meter = alloc_meter::Meter;
 
 fn main() {
     let args: Vec<String> = std::env::args().collect();
@@ -43,6 +104,7 @@ fn main() {
         "c17" => c17::run(&opts),
         "c18" => c18::run(&opts),
         "c11" => c11::run(&opts),
+        "c12" => c12::run(&opts),
         "c05" => c05::run(&opts),
         "c06" => c06::run(&opts),
         "c07" => c07::run(&opts),
